@@ -92,7 +92,7 @@ MonInit(p) ==
    expLeft |-> 0 - 1, \* ticks left for the first of them (-1: no claim)
    expDef |-> FALSE,  \* the expectation is the whole set's own action
    last |-> [ci |-> 0, viaRel |-> FALSE, late |-> FALSE],   \* (= NoLast) the latest chord activation (to classify a repeat)
-   sp |-> IF p.ver = 1 THEN 0 ELSE MaxT(p) + p.minidle + 2,     \* v2, while a chord action is held: ticks since the last press input (capped; else at the cap)
+   sp |-> IF p.ver = 1 THEN 0 ELSE MaxT(p) + p.minidle + 2,     \* v2: ticks since the last press input (capped)
    phys |-> {},       \* keys physically down (from the inputs)
    lay |-> 0, lheld |-> FALSE,
    gapIn |-> 0, lastIdle |-> TRUE, cbRun |-> 2, quiet |-> p.red + 1, err |-> ""]
@@ -115,12 +115,12 @@ MonIn(m, r) ==
     IN
     IF p.lkey # 0 /\ c = p.lkey
     THEN \* the active layer is in doubt until kanata has settled again
-         [m0 EXCEPT !.lay = 0 - 1, !.lheld = (r.e = "d"), !.sp = IF r.e = "d" /\ m.acts # <<>> THEN 0 ELSE @,
+         [m0 EXCEPT !.lay = 0 - 1, !.lheld = (r.e = "d"), !.sp = IF r.e = "d" THEN 0 ELSE @,
                     !.pend = [i \in DOMAIN @ |-> [@[i] EXCEPT !.ly = 0 - 1]],
                     !.gst = "none", !.g = <<>>]
     ELSE IF r.e = "d"
     THEN LET m1 == [m0 EXCEPT !.pend = Append(@, [c |-> c, xr |-> {}, ly |-> m.lay, sk |-> FALSE, age |-> 0, hid |-> 0, dup |-> FALSE]),
-                              !.sp = IF m.acts # <<>> THEN 0 ELSE @]
+                              !.sp = 0]
          IN IF m.gst = "none"
             THEN IF Settled(m) /\ IsPart(p, c) /\ m.lay >= 0 /\ (p.ver = 1 \/ CanExtend(p, {c}, m.lay))
                  THEN [m1 EXCEPT !.gst = "open", !.g = <<c>>, !.el = 0, !.term = "none", !.arr = TRUE]
@@ -309,7 +309,7 @@ MonTick(m, out, idle, cb) ==
                               !.pend = IF settledNow THEN <<>> ELSE @]
     IN IF m4.err # "" THEN m4
        ELSE [m4 EXCEPT !.lay = IF settledNow THEN (IF m.lheld THEN 1 ELSE 0) ELSE @,
-                       !.sp = IF m4.acts = <<>> THEN SpCap(p) ELSE OMin(@ + 1, SpCap(p)),
+                       !.sp = OMin(@ + 1, SpCap(p)),
                        !.last = IF settledNow THEN NoLast ELSE @,
                        !.expDef = IF m4.exp = <<>> THEN FALSE ELSE @,
                        !.gapIn = 0, !.lastIdle = idle, !.cbRun = IF p.ver = 1 \/ cb THEN OMin(@ + 1, 2) ELSE 0,
